@@ -85,7 +85,7 @@ CLAIMED = {
         "3 C12",
     ),
     "C13": (
-        "IBAN.random (and through it BBAN.random, from_components, from_bban) is executed with nondeterministic stubs for the generator (choice() = arbitrary element: fork over countries, a bank entry whose code is a symbolic string constrained to the country's listed codes) and for rstr.xeger (arbitrary string of the regex's shape), with symbolic field-wide class-conforming pinned components. Per path the solver shows: valid IBAN of the requested country or the documented overflow error, pinned components read back unchanged, a registry draw keeps the drawn bank's code as look-up key, and the nondeterminism monitor (set iteration, hash, id, unseeded Random, clock) records nothing.",
+        "IBAN.random (and through it BBAN.random, from_components, from_bban) is executed with nondeterministic stubs for the generator (choice() = arbitrary element: fork over countries, a bank entry whose code is a symbolic string constrained to the country's listed codes) and for rstr.xeger (arbitrary string of the regex's shape), with symbolic field-wide class-conforming pinned components. Per path the solver shows: valid IBAN of the requested country or the documented overflow error, pinned components read back unchanged, a registry draw keeps the drawn bank's code as look-up key, and the nondeterminism monitor (set iteration, hash, id, unseeded Random, clock) records nothing; a separate probe imports the library in two fresh interpreters, one of which reverses every set iteration of the instrumented code (import time included), and requires the sequences handed to choice() to be identical.",
         "Relative to the stubs' contracts; 2 of the 100 retry iterations (independent, state-free); pin sets: none / branch / bank+branch+account (thorough: six); quick: 31 countries + 6 seeded no-country draws.",
         "3 C13",
     ),
